@@ -178,6 +178,8 @@ def checkV4Mapped (e : UdpEp) (a : Addr) (allowMismatch : Bool) : Except Err (Na
   if mapped && e.v6only then .error .noRoute
   else if mapped && !allowMismatch && e.id.laddr.length == 16 then .error .netUnreachable
   else if e.id.laddr.length != 0 && e.id.laddr.length != a.length then .error .invalidState
+  -- a destination must be an address of the network protocol the packet will be sent with
+  else if !allowMismatch && a.length != 0 && ((a.length == 4) != (np == v4)) then .error .noRoute
   else .ok (np, a)
 
 def World.setUdp (w : World) (i : Nat) (e : UdpEp) : World := { w with udp := w.udp.set i e }
